@@ -1,0 +1,12 @@
+//go:build verif
+
+package gofakes3
+
+import "io"
+
+// VerifNewChunkedReader exposes the aws-chunked decoder to the verification
+// harness so that it can be driven with arbitrary consumer buffer sizes. It is
+// only compiled with the "verif" build tag.
+func VerifNewChunkedReader(inner io.Reader) io.Reader {
+	return newChunkedReader(inner)
+}
